@@ -468,7 +468,8 @@ pub fn check(a: &CheckArgs) -> i32 {
     let mut harness_errors: Vec<String> = vec![];
 
     // 1. seam completeness guard
-    let unhooked = super::guard::scan_repo();
+    let gen_root = a.known.parent().map(|p| p.join("sim/gen")).unwrap_or_else(|| PathBuf::from("/verif/sim/gen"));
+    let unhooked = super::guard::scan_repo(&gen_root);
     for u in &unhooked {
         println!("WARNING unhooked effect site: {u}");
     }
